@@ -78,6 +78,65 @@ def judge(rec, opts):
     return out
 
 
+def judge_msg(rec, opts):
+    """Message templates (LiquidMsg.tla): parse(str(t)) asks the catalog for the same things, prints
+    the same text and yields the same extracted messages (line numbers aside)."""
+    import pickle as _p
+
+    from liquid2 import Environment
+    from liquid2.exceptions import LiquidError
+    from liquid2.messages import extract_from_template
+
+    from .c15 import Catalog, norm_extracted, shape
+    env = opts.get("_env")
+    if env is None:
+        env = opts["_env"] = Environment()
+    src = rec["src"]
+    try:
+        t = env.from_string(src)
+    except LiquidError:
+        return []
+
+    def behaviour(tpl):
+        res = []
+        for n in (0, 2):
+            cat = Catalog()
+            try:
+                o = tpl.render(m="Hello", pl="Hellos", cx="vctx", n=n, yes=True, no=False, translations=cat)
+            except LiquidError as e:
+                o = "error:" + type(e).__name__
+            res.append((o, cat.calls))
+        msgs = sorted((m["msg"]["fam"], m["msg"]["ctx"], m["msg"]["id"], m["msg"]["plural"]) for m in map(norm_extracted, extract_from_template(tpl)))
+        return res, msgs
+
+    what = shape(rec)
+    base = behaviour(t)
+    try:
+        s1 = str(t)
+        t2 = env.from_string(s1)
+    except Exception as e:  # noqa: BLE001
+        return [(f"str-does-not-reparse:{type(e).__name__}:{what}", {"src": src, "error": str(e)[:200]})]
+    out = []
+    if behaviour(t2) != base:
+        out.append((f"str-changes-behaviour:{what}", {"src": src, "str": s1, "before": repr(base)[:600], "after": repr(behaviour(t2))[:600]}))
+    elif str(t2) != s1:
+        out.append((f"str-not-stable:{what}", {"src": src, "str": s1, "str2": str(t2)}))
+    try:
+        t3 = _p.loads(_p.dumps(t))
+        if behaviour(t3) != base:
+            out.append((f"pickle-changes-behaviour:{what}", {"src": src}))
+    except Exception as e:  # noqa: BLE001
+        out.append((f"pickle-raises:{type(e).__name__}:{what}", {"src": src, "error": str(e)[:200]}))
+    return out
+
+
+def _judge_msg(rec, opts):
+    return judge_msg(rec, _MOPTS)
+
+
+_MOPTS: dict = {}
+
+
 def check(tier: str) -> int:
     chk = Check("C12", tier)
     chk.assumptions += ["behaviour is compared on the data sets of each focus (chosen so that every branch is taken)",
@@ -95,6 +154,18 @@ def check(tier: str) -> int:
             gen.replay_file(chk, r.workdir / "out.ndjson", "harness.c12", "judge")
         finally:
             r.cleanup()
+    from . import tlc
+    for variant, top in (("tags", 1), ("filters", 1), ("comments", 3)):
+        r = tlc.run("LiquidMsg", tlc.cfg_text(constants={"MaxTop": str(top), "Focus": f'"roundtrip-msg-{variant}"', "Variant": f'"{variant}"'},
+                                              invariants=["Export"]), tag=f"roundtrip-msg-{variant}", timeout=3000)
+        try:
+            if r.error:
+                chk.machinery_error = r.error
+                continue
+            chk.tlc(r, f"message templates ({variant})")
+            gen.replay_file(chk, r.workdir / "out.ndjson", "harness.c12", "_judge_msg")
+        finally:
+            r.cleanup()
     return chk.finish()
 
 
@@ -102,6 +173,12 @@ def replay_file(path: str) -> int:
     import json
     d = json.load(open(path))
     rec = d["record"]["record"]
+    if "items" in rec:
+        res = judge_msg(rec, {})
+        print(rec["src"])
+        for sig, det in res:
+            print("FAILS:", sig, json.dumps(det, default=str)[:1500])
+        return 1 if res else 0
     res = judge(rec, {})
     print(rec["templates"], rec["data"])
     for sig, det in res:
